@@ -1,13 +1,12 @@
-#!/bin/sh
-# usage: try_seed.sh <patch> <prop>...   applies the patch to /repo, runs the quick checks without evidence, reverts.
+#!/bin/bash
+# usage: try_seed.sh <patch> <prop>...   applies the patch to /repo, runs the quick checks without evidence, always reverts.
 patch="$1"; shift
 cd /repo || exit 3
 if ! git diff --quiet; then echo "/repo has uncommitted changes"; exit 3; fi
-if ! git apply --3way "$patch" 2>/tmp/apply.err; then echo "patch does not apply: $(cat /tmp/apply.err)"; git checkout -- . ; git reset -q; exit 3; fi
+trap 'git -C /repo checkout -q -- . ; git -C /repo reset -q' EXIT
+if ! git apply --3way "$patch" 2>/tmp/apply.err; then echo "patch does not apply: $(cat /tmp/apply.err)"; exit 3; fi
 git reset -q
 for p in "$@"; do
-  (cd /verif && python3-vt bin/check.py "$p" --no-evidence 2>&1 | grep -v "^WARNING conda" | cut -c1-400)
-  echo "[$p exit=$?]"
+  (cd /verif && python3-vt bin/check.py "$p" --no-evidence > /tmp/try_seed.out 2>&1; echo "[$p exit=$?]" >> /tmp/try_seed.out)
+  grep -v "^WARNING conda" /tmp/try_seed.out | cut -c1-600
 done
-git checkout -- .
-git status --short | grep -v _build
